@@ -21,6 +21,7 @@ func init() {
 	verifChecks["C01"] = func(c *checkCtx) { checkAlloc(c) }
 	verifChecks["C02"] = func(c *checkCtx) { checkAlloc(c) }
 	verifChildRoles["allocworker"] = allocChildWorker
+	verifChildRoles["allocrestart"] = allocRestartChild
 }
 
 // ---- monitor tables (plain slices over a byte region, so they can live in a MAP_SHARED mapping)
@@ -1277,6 +1278,22 @@ func checkAlloc(c *checkCtx) {
 			c.sample(cs)
 		}
 	}
+	// creator restart: the process that created the /dev/shm buffer file died without cleaning up and starts again with the
+	// same path while this process (the peer) still maps the old file and holds buffers of it
+	for i := 0; i < c.pick(3, 30); i++ {
+		viol, inconcl := runAllocRestart(c, i)
+		c.eval(1)
+		name := fmt.Sprintf("creator-restart-%d", i)
+		if inconcl != "" {
+			c.inconclusiveCase(name, inconcl)
+			continue
+		}
+		c.count("executions.creator-restart.devshm-multiprocess", 1)
+		c.nontrivial(fmt.Sprintf("creator-restart/%d", i%3))
+		if viol != "" {
+			c.violation(name, map[string]interface{}{"index": i}, "%s", viol)
+		}
+	}
 	// demonstration stage for known finding F1: long mixed executions on tiny lists, natural schedule,
 	// stopped at the first reproduction; the cap is a number of executions, not a time budget.
 	demoCap := c.pick(40, 200)
@@ -1342,3 +1359,129 @@ func armGenericABADetector() {
 }
 
 func abaSuspectCount() uint64 { return atomic.LoadUint64(&abaSuspects) }
+
+// ---- creator restart (directed, two processes, /dev/shm file back-end)
+
+// allocRestartChild plays the restarted creator: it does what Session.initMemManager does (create; on failure remove the file
+// and report the error; the caller's next attempt creates a fresh file), then allocates every buffer and scribbles on it.
+func allocRestartChild(args []string) {
+	path := os.Getenv("ALLOC_RESTART_PATH")
+	pairs := []*SizePercentPair{{Size: 256, Percent: 50}, {Size: 1024, Percent: 50}}
+	attempts := 0
+	var bm *bufferManager
+	var err error
+	firstErr := ""
+	for attempts < 3 {
+		attempts++
+		bm, err = getGlobalBufferManager(path, 1<<20, true, pairs)
+		if err == nil {
+			break
+		}
+		if firstErr == "" {
+			firstErr = err.Error()
+		}
+		os.Remove(path) // initMemManager's error path
+	}
+	if bm == nil {
+		childReply(map[string]interface{}{"ok": false, "err": firstErr})
+		return
+	}
+	n := 0
+	for i := range bm.lists {
+		for {
+			b, e := bm.lists[i].pop()
+			if e != nil {
+				break
+			}
+			for j := range b.data {
+				b.data[j] = 0xEE
+			}
+			b.writeIndex = len(b.data)
+			b.update()
+			n++
+		}
+	}
+	var st syscall.Stat_t
+	_ = syscall.Stat(path, &st)
+	childReply(map[string]interface{}{"ok": true, "attempts": attempts, "first_err": firstErr, "allocated": n, "inode": st.Ino})
+}
+
+func runAllocRestart(c *checkCtx, idx int) (viol string, inconcl string) {
+	rng := caseRand(c.seed, 95000+idx)
+	path := fmt.Sprintf("%salloc_restart_%d_buffer", shmPrefix(), atomic.AddUint64(&pairSeq, 1))
+	pairs := []*SizePercentPair{{Size: 256, Percent: 50}, {Size: 1024, Percent: 50}}
+	defer os.Remove(path)
+	// the first incarnation of the creator (played by this process) creates the file; this process then also plays the peer
+	// that keeps the file mapped and holds buffers of it
+	bm, err := getGlobalBufferManager(path, 1<<20, true, pairs)
+	if err != nil {
+		return "", "create: " + err.Error()
+	}
+	defer addGlobalBufferManagerRefCount(path, -1)
+	var st0 syscall.Stat_t
+	_ = syscall.Stat(path, &st0)
+	type held struct {
+		b      *bufferSlice
+		key    uint64
+		off    uint32
+		capac  uint32
+		length int
+	}
+	var hs []held
+	nHold := 1 + rng.Intn(6)
+	for i := 0; i < nHold; i++ {
+		b, e := bm.lists[i%2].pop()
+		if e != nil {
+			break
+		}
+		// leave some buffers free in front and behind
+		for k := rng.Intn(4); k > 0; k-- {
+			if x, e := bm.lists[i%2].pop(); e == nil {
+				bm.lists[i%2].push(x)
+			}
+		}
+		h := held{b: b, key: uint64(0xA110C000 + idx*16 + i), off: b.offsetInShm, capac: b.cap}
+		n := 1 + rng.Intn(len(b.data))
+		fillKeyed(b.data[:n], h.key, 0)
+		b.writeIndex = n
+		b.update()
+		h.length = n
+		hs = append(hs, h)
+	}
+	if len(hs) == 0 {
+		return "", "could not allocate"
+	}
+	cp, err := c.spawnChild("allocrestart", nil, "ALLOC_RESTART_PATH="+path)
+	if err != nil {
+		return "", err.Error()
+	}
+	defer cp.cleanupFiles()
+	var rep struct {
+		OK        bool   `json:"ok"`
+		Err       string `json:"err"`
+		Attempts  int    `json:"attempts"`
+		FirstErr  string `json:"first_err"`
+		Allocated int    `json:"allocated"`
+		Inode     uint64 `json:"inode"`
+	}
+	_, ok := cp.recv(60*time.Second, &rep)
+	cp.wait(10 * time.Second)
+	if !ok {
+		return "", "restart child gave no report"
+	}
+	c.count("creator-restart: buffers the restarted creator allocated and overwrote", int64(rep.Allocated))
+	for _, h := range hs {
+		if i := checkKeyed(h.b.data[:h.length], h.key, 0); i >= 0 {
+			return fmt.Sprintf("a buffer (offset %d, capacity %d) held by this process was overwritten by another process: the creator of %s restarted with the same "+
+				"path while the file was still mapped here (restart: ok=%v attempts=%d first error %q, same inode=%v) and was handed the very memory this holder "+
+				"still owns; first altered payload byte %d", h.off, h.capac, path, rep.OK, rep.Attempts, rep.FirstErr, rep.Inode == st0.Ino, i), ""
+		}
+		if got := *(*uint32)(unsafe.Pointer(&h.b.bufferHeader[bufferCapOffset])); got != h.capac {
+			return fmt.Sprintf("the header of a held buffer (offset %d) was rewritten by the restarted creator: capacity field %d, was %d", h.off, got, h.capac), ""
+		}
+	}
+	for _, h := range hs {
+		bm.recycleBuffer(h.b)
+	}
+	return "", ""
+}
